@@ -1,4 +1,4 @@
-Require Import OPC.Uni OPC.Names OPC.PyLit OPC.PyLitThm OPC.Values OPC.PyEval OPC.ValuesThm OPC.ValuesThm2.
+Require Import OPC.Uni OPC.Names OPC.PyLit OPC.PyLitThm OPC.Values OPC.PyEval OPC.ValuesThm OPC.ValuesThm2 OPC.Merge OPC.MergeThm OPC.RefDefault OPC.RefDefaultThm.
 From Coq Require Import NArith ZArith List Bool. Import ListNotations. Open Scope N_scope.
 
 (* T default_sound: for every scalar kind and every JSON value inside the guard (default_class = 0; each non-zero code is one
@@ -121,3 +121,59 @@ Theorem C13_enum_default_dq_refuted : exists m,
 Proof. exact enum_default_dq_refuted. Qed.
 Print Assumptions C13_float_token_refuted.
 Print Assumptions C13_enum_default_dq_refuted.
+
+(* ---- defaults that travel through a reference or an allOf merge ---- *)
+
+(* a non-null value (in particular the falsy 0, 0.0, false, empty string) is never converted to "no default" *)
+Theorem C13_conv_ok_none : forall o k v, convert_value o k v = Ok None ->
+  v = JNull \/ k = CList \/ exists ms, k = CUnion ms.
+Proof. exact conv_ok_none. Qed.
+Print Assumptions C13_conv_ok_none.
+
+(* T ref_default_revalidated: the default declared next to a $ref (bare or single-$ref allOf/oneOf/anyOf wrapper) is convert_value of
+   the REFERENCED kind on the raw value, or the reference is an error *)
+Theorem C13_ref_default_revalidated : forall o existing name required pd p,
+  property_from_ref o existing name required pd = ROk p ->
+  r_kind p = r_kind existing /\ r_required p = required /\ r_name p = name /\
+  convert_value o (r_kind existing) pd = Ok (r_default p).
+Proof. exact ref_default_revalidated. Qed.
+Print Assumptions C13_ref_default_revalidated.
+Theorem C13_ref_default_not_dropped : forall o existing name required pd p,
+  pd <> JNull -> r_kind existing <> CList -> (forall ms, r_kind existing <> CUnion ms) ->
+  property_from_ref o existing name required pd = ROk p -> r_default p <> None.
+Proof. exact ref_default_not_dropped. Qed.
+Print Assumptions C13_ref_default_not_dropped.
+Theorem C13_ref_default_sound : forall o existing name required pd p,
+  default_class o (r_kind existing) pd = 0 -> pd <> JNull ->
+  property_from_ref o existing name required pd = ROk p ->
+  exists x pv, r_default p = Some x /\ typed_value o (r_kind existing) pd = Some pv /\ eval_code (code x) = Some pv.
+Proof. exact ref_default_sound. Qed.
+Print Assumptions C13_ref_default_sound.
+Theorem C13_ref_default_complete : forall o existing name required pd,
+  default_class o (r_kind existing) pd = 0 -> pd <> JNull -> typed_value o (r_kind existing) pd = None ->
+  property_from_ref o existing name required pd = RErr.
+Proof. exact ref_default_complete. Qed.
+Print Assumptions C13_ref_default_complete.
+
+(* T merge_default_reconverted (Merge.common = _merge_common_attributes): every override default is re-converted by the final
+   (narrower) kind, the merge is an error if that fails, and the surviving default is the base's own or such a re-conversion *)
+Theorem C13_merge_default_reconverted : forall o ext cur r, common o cur ext = MOk r ->
+  ckind_of r = ckind_of cur /\
+  (forall ov d, In ov ext -> mp_dflt ov = Some d -> exists od, convert_value o (ckind_of r) (raw d) = Ok od) /\
+  (mp_dflt r = mp_dflt cur \/
+   exists ov d x, In ov ext /\ mp_dflt ov = Some d /\ convert_value o (ckind_of r) (raw d) = Ok (Some x) /\ mp_dflt r = Some x).
+Proof. exact merge_default_reconverted. Qed.
+Print Assumptions C13_merge_default_reconverted.
+Theorem C13_merge_last_default_wins : forall o pre ov cur r d x,
+  common o cur (pre ++ [ov]) = MOk r -> mp_dflt ov = Some d ->
+  convert_value o (ckind_of r) (raw d) = Ok (Some x) -> mp_dflt r = Some x.
+Proof. exact merge_last_default_wins. Qed.
+Print Assumptions C13_merge_last_default_wins.
+Theorem C13_merge_last_default_sound : forall o pre ov cur r d,
+  common o cur (pre ++ [ov]) = MOk r -> mp_dflt ov = Some d -> raw d <> JNull ->
+  default_class o (ckind_of r) (raw d) = 0 ->
+  exists x pv, mp_dflt r = Some x /\ typed_value o (ckind_of r) (raw d) = Some pv /\ eval_code (code x) = Some pv.
+Proof. exact merge_last_default_sound. Qed.
+Print Assumptions C13_merge_last_default_sound.
+Theorem C13_merge_narrowed_default_rejected : exists o cur ov, common o cur [ov] = MErr /\ mp_dflt ov <> None.
+Proof. exact merge_narrowed_default_rejected. Qed.
